@@ -476,8 +476,6 @@ class World:
         self.trace = []          # ops for Model/Reprocess.lean, in the order the real code performed them
         self.obs = []            # what the real code showed after each of them
         self.outside = None      # why this history is outside the model (None: inside)
-        if any(kind_of(a) != 'task' for a in algs):
-            self.outside = 'analyses are not in Model/Reprocess (tasks only)'
         self.nodes = {}
         for r in S.ae.at:
             for n in r.iter():
@@ -814,7 +812,7 @@ def run(ctx, res):
     r = common.rng(ctx['seed'], 'C02e2e')
     thorough = ctx['tier'] == 'thorough' or ctx.get('escalate')
     scenarios = [seed3_shape()] + [gen_scenario(r, small=not thorough) for _ in range(150 if thorough else 5)]
-    # engines with analyses (monitors only: Model/Reprocess is tasks only)
+    # engines with analyses (aspects over every target, results under '__all__')
     ra = common.rng(ctx['seed'], 'C02e2e-aspects')
     scenarios += [aspect_shape(), dict(aspect_shape(), overlap=0.7, hold=0.4)]
     for i in range(60 if thorough else 4):
@@ -836,7 +834,7 @@ def run(ctx, res):
     if ctx.get('lean'):
         from . import c02_model
         model = []
-        plain = [overlap_shape(), slow_sibling_shape()]
+        plain = [overlap_shape(), slow_sibling_shape(), aspect_shape(), dict(aspect_shape(), overlap=0.7, hold=0.4)]
         for i, sc in enumerate(scenarios):
             base = dict(sc, algs=[dict(a, checkpoint=False) for a in sc['algs']])
             plain.append(dict(base, overlap=0.6 if i % 2 == 0 else 0, hold=0.4 if i % 3 else 0))
@@ -844,10 +842,10 @@ def run(ctx, res):
                 plain.append(dict(base, overlap=0 if i % 2 == 0 else 1.0, hold=0.5))
         # outside the premise: source data that returns to an earlier state -> contents stored before;
         # the clause does not apply, the model must still predict the real store exactly
-        plain.insert(2, dict(overlap_shape(), overlap=0, cycle=2))
+        plain.insert(4, dict(overlap_shape(), overlap=0, cycle=2))
         if thorough:
-            plain.extend(dict(sc, cycle=2) for sc in plain[3:40:3])
-        for sc in (plain if thorough else plain[:8]):
+            plain.extend(dict(sc, cycle=2) for sc in plain[5:42:3])
+        for sc in (plain if thorough else plain[:11]):
             problems, stats = run_scenario(store, _norm(sc), ctx['seed'], model=model)
             for sig, what in problems:
                 res.hit(sig, what, {'kind': 'e2e', 'scenario': sc, 'seed': ctx['seed']})
